@@ -63,11 +63,12 @@ claim("C11", "DESIGN.md §5 C11",
       "Windows, names, demands compared with the code exactly on dyadic ports and with tolerance (tie guard) on G1.",
       "0 < size, rate != 0, 0 <= init <= cap, size <= cap, fresh node names (hypotheses stated in the theorems).")
 claim("C12", "DESIGN.md §5 C12",
-      "Lean 4 invariant proof over every successful sequence of MIRP helper calls (arc kinds, alternation, timing filter), load alternation along every depot path by induction, exit arcs, arc data of travel arcs + full-graph correspondence and kind/arc-set oracle",
+      "Lean 4 invariant proof over every successful sequence of MIRP helper calls (arc kinds, alternation, timing filter), load alternation along every depot path by induction, exit arcs, arc data of travel arcs, exactness of the arc set for the standard helper order (no other arcs / all of them / one dummy per eligible demand visit) + full-graph correspondence and kind/arc-set oracle",
       "Proved for every successful build (any order/number of helper calls, positive cargo size, distinct port names): depot arcs lead only to loading nodes, non-depot arcs alternate loading/discharging, every stored arc passes the timing filter; "
       "along every depot path the load is size after a loading node and 0 after a discharging node; every regular node gets an exit arc and arcs are never removed; travel arcs carry distance/speed and distance*unit+destination fee. "
+      "For the standard order (ports, travel, exit, entry — the order of mirp_g1 and of the random generator) the arc set is exactly the specified one (Props/C12b: arcs_sound, arcs_complete, arcs_complete_toDummy, entry_via_dummy, dummy_degree, with ports_build_facts discharging the hypotheses for every successful port declaration sequence). "
       "The complete arc dictionary and node list are compared with the code; the exactly-specified arc set is re-derived independently (also on G1 and random-generator instances).",
-      "Exactness of the whole arc set for permuted helper orders rests on the oracle (the theorem gives the travel-arc data and the invariants).")
+      "Exactness of the arc set for permuted orders of the three closing helper calls rests on the oracle (proved for the standard order).")
 claim("C18", "DESIGN.md §5 C18",
       "Lean 4 theorems (sorted-grid continue/break scan = window filter; enumerated tuples = admissible tuples; Nodup; index<->tuple lookups mutually inverse; none for inadmissible tuples and indices >= n; same for the sequence fixing rules) + correspondence on whole variable lists and lookup boxes",
       "Proved: add_time_points sorts (any input order); on a sorted grid the enumeration yields exactly the admissible (i,s,j,t); no duplicates for duplicate-free grids; both lookups are mutual inverses; inadmissible tuples and indices >= n map to nothing; "
